@@ -19,6 +19,11 @@ and an equation is ["eq", lhs, rhs] (residual lhs - rhs).
 import itertools
 
 NUM_ATTRS = ["start", "min", "max", "nominal"]
+def csize(rng):
+    """size of a component array / small array dimension: 1 is a legitimate size (`Pump one[1]`)"""
+    return rng.choice([1, 2, 2, 3])
+
+
 NAME_POOL = ["d", "e", "r", "dd", "re", "rho", "drum", "red", "ed", "dred", "rr", "de", "er", "eder", "rd"]
 
 
@@ -277,7 +282,7 @@ def gen_program(rng, stream="main"):
         c.order = []
         for _ in range(rng.randint(1, 3)):
             r = rng.random()
-            dims = [] if r < 0.4 else [rng.randint(2, 3)]
+            dims = [] if r < 0.4 else [rng.choice([1, 2, 3, 3])]
             kind = "param" if rng.random() < 0.25 else "alg"
             f = Field(nm("f"), dims, kind)
             if rng.random() < 0.5:
@@ -304,7 +309,7 @@ def gen_program(rng, stream="main"):
         m.fields.append(f)
         maxf = max(len(g.dims) for g in leaf.fields)
         m.budget = 2 - max(maxf, 0)
-        bd = [2] if rng.random() < 0.6 and maxf == 0 else []
+        bd = [rng.choice([1, 2])] if rng.random() < 0.6 and maxf == 0 else []
         m.inner_dims = max(len(bd) + maxf, len(f.dims))
         items = [("f", f), ("c", ("b", leaf, bd, {}))]
         rng.shuffle(items)
@@ -324,7 +329,7 @@ def gen_program(rng, stream="main"):
     for _ in range(rng.randint(1, 3)):
         r = rng.random()
         if r < 0.5:
-            shapes.append([rng.randint(2, 4)])
+            shapes.append([rng.choice([1, 2, 3, 4, 4])])
         elif r < 0.8:
             shapes.append([rng.randint(2, 3), rng.randint(2, 3)])
         else:       # 2-D with a dimension of size 1: column, row and 1x1 matrices
@@ -409,11 +414,13 @@ def gen_program(rng, stream="main"):
     for c in classes + mids:
         for _ in range(rng.choice([1, 1, 2]) if c in classes else 1):
             r = rng.random()
-            dims = [] if r < 0.25 else [rng.randint(2, 3)]
+            dims = [] if r < 0.25 else [csize(rng)]
             if c in mids and c.inner_dims >= 2:
                 dims = []
             mods = {}
             inst = nm("c")
+            if dims == [1]:
+                feats.add("component-array-of-size-1")
             if c in classes:
                 for f in c.fields:
                     tot = dims + f.dims
@@ -460,9 +467,9 @@ def gen_program(rng, stream="main"):
             n = rng.randint(2, 3)
             m.order = [("c", ("b", c, [n], {f.name: {rng.choice(NUM_ATTRS): ("plain", nested(rng, [n]))}}))]
             mids.append(m)
-            top.order.append(("c", (nm("k"), m, [rng.randint(2, 3)], {})))
+            top.order.append(("c", (nm("k"), m, [csize(rng)], {})))
         else:
-            top.order.append(("c", (nm("k"), c, [rng.randint(2, 3)], {})))
+            top.order.append(("c", (nm("k"), c, [csize(rng)], {})))
         feats.add("inner-" + kindi)
 
     decls = flatten_decls(top)
